@@ -60,6 +60,7 @@ def run_case(case):
     vstar = refmdp.vstar(P, R, g)[0] if g < 1.0 else None
     orders = []
     judged = 0
+    sweeps_total = 0
     for k in range(case["nsweeps"]):
         if k % 4 == 1:
             V = np.zeros(S)
@@ -70,31 +71,37 @@ def run_case(case):
             V = r.normal(size=S) * scale * float(10.0 ** r.integers(-1, 3))
         s.values = jnp.asarray(V)
         twin.values = jnp.asarray(V)
-        res = target.solve(s, 1)
-        res2 = target.solve(twin, 1)
+        nsw = [1, 1, 2, 3][k % 4]          # some steps run several sweeps inside ONE solve() call
+        n_before = len(getattr(s, "_verif_sweep_orders", None) or [])
+        res = target.solve(s, nsw)
+        res2 = target.solve(twin, nsw)
         rec = getattr(s, "_verif_sweep_orders", None)
         rec2 = getattr(twin, "_verif_sweep_orders", None)
-        if rec is None or rec2 is None or len(rec) != k + 1 or len(rec2) != k + 1:
+        done = int(res.info.iteration) - sweeps_total
+        sweeps_total = int(res.info.iteration)
+        if rec is None or rec2 is None or len(rec) != n_before + done or len(rec2) != len(rec) or done < 1:
             return dict(status="error", detail=f"hook record missing or of wrong length (guard not honoured?): "
-                                               f"{None if rec is None else len(rec)} after {k + 1} sweeps")
-        o = rec[-1]
-        if case["shuffle"]:
-            if o is None:
-                return dict(status="violation", kind="order", detail="shuffling requested but sweep used the fixed order")
-            o = np.asarray(o).astype(int)
-            if o.shape != (S,) or not np.array_equal(np.sort(o), np.arange(S)):
-                return dict(status="violation", kind="order",
-                            detail=f"recorded sweep order is not a permutation of all {S} states")
-            if not np.array_equal(o, np.asarray(rec2[-1]).astype(int)):
-                return dict(status="violation", kind="reproducibility",
-                            detail=f"two solvers with random_seed={case['random_seed']} used different orders in sweep {k + 1}")
-            orders.append(tuple(o.tolist()))
-        else:
-            if o is not None:
-                return dict(status="violation", kind="order", detail="fixed order requested but a permutation was used")
-            o = np.arange(S)
+                                               f"{None if rec is None else len(rec)} records, {n_before}+{done} sweeps")
+        ref = V
+        for j in range(done):
+            o = rec[n_before + j]
+            if case["shuffle"]:
+                if o is None:
+                    return dict(status="violation", kind="order", detail="shuffling requested but sweep used the fixed order")
+                o = np.asarray(o).astype(int)
+                if o.shape != (S,) or not np.array_equal(np.sort(o), np.arange(S)):
+                    return dict(status="violation", kind="order",
+                                detail=f"recorded sweep order is not a permutation of all {S} states")
+                if not np.array_equal(o, np.asarray(rec2[n_before + j]).astype(int)):
+                    return dict(status="violation", kind="reproducibility",
+                                detail=f"two solvers with random_seed={case['random_seed']} used different orders in sweep {n_before + j + 1}")
+                orders.append(tuple(o.tolist()))
+            else:
+                if o is not None:
+                    return dict(status="violation", kind="order", detail="fixed order requested but a permutation was used")
+                o = np.arange(S)
+            ref = refmdp.gs_sweep(P, R, g, ref, o, shape, S)
         got = target.np_values(res.values)
-        ref = refmdp.gs_sweep(P, R, g, V, o, shape, S)
         mag = 1.0 + float(np.abs(V).max()) + float(np.abs(R).max())
         if got.shape != (S,) or np.abs(got - ref).max() > 1e-9 * mag:
             sb = int(np.argmax(np.abs(got - ref))) if got.shape == (S,) else -1
@@ -108,13 +115,25 @@ def run_case(case):
         if k % 4 == 3 and vstar is not None:
             if np.abs(got - vstar).max() > 1e-9 * (1 + np.abs(vstar).max() + scale):
                 return dict(status="violation", kind="fixed-point", detail="v* is not a fixed point of the sweep")
-        judged += 1
+        judged += done
     fresh = None
     if case["shuffle"] and S >= 8 and len(orders) >= 4:
-        fresh = len(set(orders)) > 1
+        # drawn afresh for each sweep: a repeat among <= 20 draws from >= 8! permutations has probability < 1e-2/8!
+        fresh = len(set(orders)) == len(orders)
         if not fresh:
+            rep = [i for i in range(1, len(orders)) if orders[i] in orders[:i]]
             return dict(status="violation", kind="freshness",
-                        detail=f"shuffling on, yet all {len(orders)} sweeps used the same permutation")
+                        detail=f"shuffling on, yet sweep(s) {[i + 1 for i in rep]} re-used a permutation of an earlier sweep "
+                               f"({len(set(orders))} distinct permutations in {len(orders)} sweeps)")
+        # the stream must depend on random_seed: another seed gives another sequence
+        if case["case_id"] % 3 == 0:
+            other = target.make_solver("sa", problem, **{**kw, "random_seed": case["random_seed"] + 1})
+            other.values = jnp.asarray(vstar if vstar is not None else np.zeros(S))
+            target.solve(other, 2)
+            oo = [tuple(np.asarray(x).astype(int).tolist()) for x in other._verif_sweep_orders[:2]]
+            if oo == orders[:2]:
+                return dict(status="violation", kind="seed-ignored",
+                            detail=f"random_seed={case['random_seed']} and {case['random_seed'] + 1} produce the same sweep orders")
     sched = [shape[0], shape[1], shape[2], n_pad, "shuffled" if case["shuffle"] else "fixed"]
     return dict(status="ok", n_obs=judged, cls=sched, perms=len(set(orders)), batch_shape=list(shape), n_pad=n_pad,
                 multi_batch=bool(shape[1] > 1), structure=struct)
